@@ -230,16 +230,21 @@ Definition cmp_op (o : binop) (a b : value) : result value :=
     end
   end.
 
-(* & | ^ : integer operands; bool operands are promoted to int (the result is an int) *)
+(* & | ^ : integer operands; two bool operands give a bool (HLSL does not promote bool for the
+   bitwise operators: DialectChoices.md); a bool with an integer is promoted *)
 Definition bit_op (o : binop) (a b : value) : result value :=
-  k <~ common_kind a b ;;
-  match k with
-  | KFloat => Fail "unsupported: bitwise operator on float"
-  | _ =>
-    x <~ promote k a ;; y <~ promote k b ;;
-    p <~ bits_of x ;; q <~ bits_of y ;;
-    let r := match o with BAnd => Z.land p q | BOr => Z.lor p q | _ => Z.lxor p q end in
-    match k with KUint => Done (VU32 r) | _ => Done (VI32 r) end
+  match a, b with
+  | VBool p, VBool q => Done (VBool (match o with BAnd => andb p q | BOr => orb p q | _ => xorb p q end))
+  | _, _ =>
+    k <~ common_kind a b ;;
+    match k with
+    | KFloat => Fail "unsupported: bitwise operator on float"
+    | _ =>
+      x <~ promote k a ;; y <~ promote k b ;;
+      p <~ bits_of x ;; q <~ bits_of y ;;
+      let r := match o with BAnd => Z.land p q | BOr => Z.lor p q | _ => Z.lxor p q end in
+      match k with KUint => Done (VU32 r) | _ => Done (VI32 r) end
+    end
   end.
 
 (* shifts: the result has the (promoted) type of the left operand; amount masked to 5 bits *)
